@@ -472,6 +472,8 @@ pub struct World {
     pub cur: u32,
     pub handles: Vec<Handle>,
     pub texts: Vec<String>,
+    /// case matching / normalization of the last reparse per column
+    pub modes: Vec<(CaseMatching, Normalization)>,
     pub next_id: Arc<std::sync::atomic::AtomicU32>,
     /// pushes invoked / completed per stream (completed = the call returned)
     pub invoked: Arc<Mutex<HashMap<u32, u32>>>,
@@ -521,6 +523,7 @@ impl World {
             cur: 0,
             handles: Vec::new(),
             texts: vec![String::new(); cols],
+            modes: vec![(CaseMatching::Smart, Normalization::Smart); cols],
             next_id: Arc::new(std::sync::atomic::AtomicU32::new(0)),
             invoked: Arc::new(Mutex::new(HashMap::new())),
             completed: Arc::new(Mutex::new(HashMap::new())),
@@ -612,10 +615,23 @@ impl World {
     // ---------------- pattern edits
 
     pub fn edit(&mut self, col: usize, new_text: &str) {
+        let (case, norm) = self.modes[col];
+        self.edit_with(col, new_text, case, norm)
+    }
+
+    /// reparse with explicit case matching / normalization settings (a "match case" toggle of a user interface); the
+    /// append flag follows the documented rule: set exactly when the previous text is a prefix of the new text
+    pub fn edit_with(&mut self, col: usize, new_text: &str, case: CaseMatching, norm: Normalization) {
         let append = new_text.starts_with(self.texts[col].as_str());
         self.texts[col] = new_text.to_owned();
-        self.n().pattern.reparse(col, new_text, CaseMatching::Smart, Normalization::Smart, append);
-        self.note(format!("reparse col {col} {new_text:?} append={append}"));
+        let changed = self.modes[col] != (case, norm);
+        self.modes[col] = (case, norm);
+        self.n().pattern.reparse(col, new_text, case, norm, append);
+        if changed {
+            self.note(format!("reparse col {col} {new_text:?} append={append} settings now {case:?}/{norm:?}"));
+        } else {
+            self.note(format!("reparse col {col} {new_text:?} append={append}"));
+        }
     }
 
     // ---------------- restart
@@ -1334,7 +1350,16 @@ pub fn run_random(opts: &Opts, rep: &mut Report, props: &[&str]) {
                             t
                         }
                     };
-                    w.edit(col, &new_text);
+                    if rng.chance(1, 6) {
+                        // the user toggles "match case" / "ignore accents" (often with the text unchanged)
+                        let case = *rng.pick(&[CaseMatching::Smart, CaseMatching::Ignore, CaseMatching::Respect]);
+                        let norm = *rng.pick(&[Normalization::Smart, Normalization::Never]);
+                        let text = if rng.coin() { w.texts[col].clone() } else { new_text };
+                        w.edit_with(col, &text, case, norm);
+                        rep.count("edits-with-changed-settings");
+                    } else {
+                        w.edit(col, &new_text);
+                    }
                     label = "edit".into();
                 }
                 58..=60 => {
